@@ -163,6 +163,30 @@ func C12(ctx *core.Ctx) {
 			if !ok {
 				continue
 			}
+			// the frame placeholder: right after the embedded Reset() the method appends a
+			// constant 4 bytes of framing (not payload) — the buffer then holds exactly the
+			// placeholder, whatever the limit
+			if len(c.Common.Args) == 2 {
+				four := false
+				if g, isG := LoadedGlobal(ssax.Strip(c.Common.Args[1])); isG && globalSliceLen(r, g) == 4 {
+					four = true
+				}
+				if mk, isMk := ssax.Strip(c.Common.Args[1]).(*ssa.MakeSlice); isMk {
+					if k, isK := ssax.ConstInt(mk.Len); isK && k == 4 {
+						four = true
+					}
+				}
+				afterReset := false
+				for _, c0 := range ssax.Calls(fn) {
+					if c0.ShortName() == "Reset" && c0.Static != nil && c0.Static.Pkg != r.Pkg && ssax.Dominates(c0.Instr.(ssa.Instruction), c.Instr.(ssa.Instruction)) {
+						afterReset = true
+					}
+				}
+				if four && afterReset {
+					ctx.Discharge("C12.R1", fname+" › frame placeholder after the embedded Reset", r.IPos(c.Instr), "constant 4 bytes of framing written into the just-emptied buffer")
+					continue
+				}
+			}
 			// appended byte count
 			env := pr.EnvAt(fn.Blocks[0].Instrs[0])
 			var n lin.Term
@@ -510,13 +534,19 @@ func C12(ctx *core.Ctx) {
 	for _, spec := range []struct{ ctor, getter string }{{"NewFStandardClient", "GetRequestSizeLimit"}, {"NewFScopeClient", "GetPublishSizeLimit"}} {
 		if fn := r.Fn("C12.R5", spec.ctor); fn != nil {
 			ok := false
+			other := ""
 			ssax.Instrs(fn, func(in ssa.Instruction) {
 				if st, isSt := in.(*ssa.Store); isSt && fieldNameOfAddr(st.Addr) == "limit" {
 					if c, isC := CallValue(st.Val); isC && c.Method != nil && c.Method.Name() == spec.getter {
 						ok = true
+					} else {
+						other = r.IPos(in) // the limit is the transport's, whatever it is (0 = unbounded)
 					}
 				}
 			})
+			if other != "" {
+				ok = false
+			}
 			ctx.Check(ok, "C12.R5", spec.ctor+" › client limit = transport."+spec.getter+"()", fnPos(r, fn), "limit field assigned from the transport's getter", "the client's buffer limit is not taken from its transport: oversize messages are not stopped at encode time or small ones are rejected")
 		}
 	}
@@ -658,10 +688,59 @@ func C12(ctx *core.Ctx) {
 			ctx.Unresolved("C12.R13", "bounded buffer", "no originated error return found in the appending methods")
 		}
 	}
+	// ---- R14: the buffer's methods do not call each other in a circle ----------------------
+	// Write resets on rejection and Reset re-writes the frame placeholder: if that
+	// placeholder goes through the guarded Write again, a limit smaller than the
+	// placeholder (1..3) makes Write and Reset call each other until the stack
+	// overflows — instead of REQUEST_TOO_LARGE the process dies.
+	ctx.Rule("C12.R14", "for every limit value a rejection terminates: the methods of the bounded buffer are not mutually recursive", 1)
+	{
+		succ := map[*ssa.Function][]*ssa.Function{}
+		var methods []*ssa.Function
+		for _, fn := range r.Fns {
+			if fn.Signature.Recv() != nil && ssax.TypeNamed(fn.Signature.Recv().Type(), "", "TMemoryOutputBuffer") {
+				methods = append(methods, fn)
+			}
+		}
+		isM := map[*ssa.Function]bool{}
+		for _, m := range methods {
+			isM[m] = true
+		}
+		for _, m := range methods {
+			for _, c := range ssax.Calls(m) {
+				if c.Static != nil && isM[c.Static] {
+					succ[m] = append(succ[m], c.Static)
+				}
+			}
+		}
+		cyc := ""
+		for _, m := range methods {
+			seen := map[*ssa.Function]bool{}
+			stack := append([]*ssa.Function{}, succ[m]...)
+			for len(stack) > 0 {
+				x := stack[len(stack)-1]
+				stack = stack[:len(stack)-1]
+				if x == m {
+					cyc = ssax.Name(m)
+					break
+				}
+				if seen[x] {
+					continue
+				}
+				seen[x] = true
+				stack = append(stack, succ[x]...)
+			}
+		}
+		ctx.Check(cyc == "", "C12.R14", "TMemoryOutputBuffer › no call cycle among its methods", "lib/go/bounded_memory_buffer.go", sprintf("%d methods", len(methods)),
+			cyc+" can reach itself through the buffer's other methods (Write rejects → Reset → Write of the frame placeholder → rejects again …): with a limit smaller than the 4-byte placeholder the recursion never ends and the process dies of a stack overflow instead of reporting REQUEST_TOO_LARGE")
+	}
 	if rs := r.Fn("C12.R5", "(*TMemoryOutputBuffer).Reset"); rs != nil && guardedWrite != nil {
 		ok := false
 		for _, c := range ssax.Calls(rs) {
-			if c.Static == guardedWrite {
+			// through the guarded Write, or straight into the embedded buffer (the
+			// 4-byte placeholder is framing, not payload)
+			embedded := c.ShortName() == "Write" && c.Static != guardedWrite && len(c.Common.Args) == 2 && c.Static != nil && c.Static.Pkg != r.Pkg
+			if c.Static == guardedWrite || embedded {
 				// the placeholder: a package-level byte slice initialised with 4 elements and never reassigned
 				if g, isG := LoadedGlobal(ssax.Strip(c.Common.Args[1])); isG && globalSliceLen(r, g) == 4 {
 					ok = true
